@@ -287,18 +287,14 @@ func c17Gen(r *vfRand, size int) c17Case {
 		c.NKeys = 1 + r.Intn(300)
 		c.NPeers = 1 + r.Intn(150)
 	}
+	// The router reports the K = 20 nearest peers (amino.DefaultBucketSize, what the DHT's
+	// GetClosestPeers returns); the exploration heuristics of closestPeersToPrefix
+	// (maxConsecutiveNoFreshPeers, maxExplorationPrefixSearches) are tuned for it.
+	// Replication factor 1-5, sometimes the production value r = K = 20.
 	c.R = 1 + r.Intn(5)
-	// the router reports K >= max(r, 2) peers: with a single reported peer the
-	// exploration cannot delimit what a lookup covered (provider.go:922)
-	c.K = c.R
-	switch x := r.Intn(100); {
-	case x < 25:
-		c.K = c.R + 1 + r.Intn(3)
-	case x < 40:
-		c.K = 20
-	}
-	if c.K < 2 {
-		c.K = 2 + r.Intn(3)
+	c.K = 20
+	if r.Chance(12) {
+		c.R = 20
 	}
 	c.IntervalS = []int64{1800, 3600, 7200, 22 * 3600}[r.Intn(4)]
 	c.MaxDelayS = c.IntervalS / []int64{20, 10, 4}[r.Intn(3)]
